@@ -9,7 +9,7 @@ from __future__ import annotations
 import ast
 
 from ..linear import const, linear, symbol
-from ..model import const_value, kwarg, norm_text, walk_no_nested
+from ..model import const_value, dotted, kwarg, norm_text, walk_no_nested
 from ..pattern import Matcher
 from ..report import Context
 from .common import calls_in, callee
@@ -105,6 +105,11 @@ def run(ctx: Context) -> None:
             ctx.check('R14.3', ok, "the batch's polygons are gathered with the batch's own index array and fanned together", td, bulk,
                       construct='fan = _triangulate_polygons_by_length(polygons[batch])')
             lab = m.stmt('for $fi, $tri in zip($batch, $fan):\n    _add_triangles(int($fi), $tri)', within=bulk)
+            if lab is None:
+                # the whole batch at once: every face index repeated once per triangle of its fan, fans laid end to end (same order)
+                lab = m.stmt('_add_triangles(numpy.repeat($batch, $fan.shape[1]), $fan.reshape((-1, 3, 2)))', within=bulk) or \
+                    (m.stmt('_add_triangles(numpy.repeat($batch, $per), $fan.reshape((-1, 3, 2)))', within=bulk)
+                     if m.stmt('$per = $fan.shape[1]', within=bulk) is not None else None)
             ctx.check('R14.3', lab is not None, "triangles are labelled by zipping that same index array with the fan result", td, lab or bulk,
                       construct='for face_index, triangles in zip(batch, fan): _add_triangles(int(face_index), triangles)')
         else:
@@ -234,18 +239,82 @@ def run(ctx: Context) -> None:
         poly = tcp.params[0]
         cnt = mc.stmt(f"$count = len({poly}.exterior.coords) - 3")
         ctx.check('R14.6', cnt is not None, "an n-gon (n+1 ring coordinates) yields n-2 triangles", tcp, cnt or tcp.node, construct='count = len(polygon.exterior.coords) - 3')
-        wl = mc.stmt(f"while len({poly}.exterior.coords) > 4:\n    ...")
-        ctx.check('R14.6', wl is not None, "ears are clipped until a triangle remains", tcp, wl or tcp.node, construct='while len(polygon.exterior.coords) > 4: ...')
-        ok = wl is not None and mc.has(f"$ring = {poly}.exterior", '$coords = $ring.coords[:-1]', within=wl)
-        inner = mc.stmt('for $i in range(len($coords) - 2):\n    ...\nelse:\n    ...', within=wl) if ok else None
-        ok = inner is not None and mc.has('$verts = [$coords[$i], $coords[$i + 2]]', '$diag = shapely.geometry.LineString($verts)', '$ends = shapely.geometry.MultiPoint($verts)', within=inner)
-        test = mc.stmt(f"if $diag.covered_by({poly}) and $ring.intersection($diag).equals($ends):\n    ...", within=inner) if ok else None
-        ctx.check('R14.6', test is not None, "a diagonal (i, i+2) is an ear only if it lies in the polygon and touches the ring at its end points only", tcp, test or tcp.node,
+        tflow = ctx.flow(tcp)
+        from .common import path_conditions, enclosing_ifs as _eifs, expand_locals as _xl14
+        # the clipping loop runs while more than a triangle is left: `while len(ring coordinates) > 4`, or the same test on the open ring (> 3),
+        # written in the loop header or as the loop's only `break`
+        wl = None
+        for n in tcp.node.body:
+            if isinstance(n, ast.While) and not n.orelse:
+                wl = n
+        keep_going = None
+        if wl is not None:
+            if isinstance(wl.test, ast.Constant) and wl.test.value is True:
+                brk = [st_ for st_ in wl.body if isinstance(st_, ast.If) and not st_.orelse and len(st_.body) == 1 and isinstance(st_.body[0], ast.Break)]
+                if len(brk) == 1:
+                    t_ = brk[0].test
+                    keep_going = t_.operand if isinstance(t_, ast.UnaryOp) and isinstance(t_.op, ast.Not) else None
+            else:
+                keep_going = wl.test
+        ok_while = False
+        if isinstance(keep_going, ast.Compare) and len(keep_going.ops) == 1 and isinstance(keep_going.ops[0], ast.Gt) and isinstance(keep_going.left, ast.Call) \
+                and dotted(keep_going.left.func) == 'len' and len(keep_going.left.args) == 1:
+            subject = norm_text(_xl14(tflow, keep_going.left.args[0]))
+            bound = const_value(keep_going.comparators[0], None)
+            ok_while = (subject == f"{poly}.exterior.coords" and bound == 4) or (subject in (f"{poly}.exterior.coords[:-1]",) and bound == 3)
+        ctx.check('R14.6', ok_while, "ears are clipped until a triangle remains", tcp, wl or tcp.node, construct='while len(polygon.exterior.coords) > 4: ...')
+        inner = None
+        if wl is not None:
+            for n in ast.walk(wl):
+                if isinstance(n, ast.For) and n.orelse:
+                    inner = n
+        # the open ring the candidates are taken from, the candidate index and the two ends of the diagonal
+        coords_name = ivar = None
+        ends_expr = None
+        if inner is not None:
+            it_ = inner.iter
+            if isinstance(inner.target, ast.Name) and mc.match('range(len($coords) - 2)', it_, commit=True):
+                ivar, coords_name = inner.target.id, mc.name('coords')
+            elif isinstance(inner.target, ast.Tuple) and len(inner.target.elts) == 2 and all(isinstance(e, ast.Name) for e in inner.target.elts) \
+                    and mc.match('enumerate(zip($coords, $coords[2:]))', it_, commit=True):
+                ivar, coords_name = inner.target.elts[0].id, mc.name('coords')
+                ends_expr = inner.target.elts[1].id
+        ring_ok = coords_name is not None and any(
+            isinstance(st_, ast.Assign) and norm_text(st_.targets[0]) == coords_name and norm_text(_xl14(tflow, st_.value)) == f"{poly}.exterior.coords[:-1]" for st_ in ast.walk(wl))
+        record = mc.stmt(f"$tris[$k] = {coords_name}[{ivar}:{ivar} + 3]", within=inner) if ring_ok else None
+        test_ok = False
+        if record is not None:
+            def ends_of(e):
+                """text of the two-vertex sequence a LineString / MultiPoint is built from, when it is (coords[i], coords[i + 2])"""
+                v = tflow.resolve(e)
+                if isinstance(v, ast.Name) and ends_expr is not None and v.id == ends_expr:
+                    return 'ends'
+                if isinstance(v, (ast.List, ast.Tuple)) and [norm_text(x) for x in v.elts] == [f"{coords_name}[{ivar}]", f"{coords_name}[{ivar} + 2]"]:
+                    return 'ends'
+                return None
+            inside = touches = False
+            for t, pol in path_conditions(tcp, record):
+                if not pol or not isinstance(t, ast.Call) or not isinstance(t.func, ast.Attribute):
+                    continue
+                if t.func.attr == 'covered_by' and len(t.args) == 1 and norm_text(t.args[0]) == poly:
+                    d_ = tflow.resolve(t.func.value)
+                    inside = isinstance(d_, ast.Call) and (callee(ctx, tcp, d_) or '').endswith('LineString') and len(d_.args) == 1 and ends_of(d_.args[0]) == 'ends'
+                if t.func.attr == 'equals' and len(t.args) == 1 and isinstance(t.func.value, ast.Call) and isinstance(t.func.value.func, ast.Attribute) \
+                        and t.func.value.func.attr == 'intersection' and len(t.func.value.args) == 1:
+                    ring_ = tflow.resolve(t.func.value.func.value)
+                    d_ = tflow.resolve(t.func.value.args[0])
+                    e_ = tflow.resolve(t.args[0])
+                    touches = (norm_text(_xl14(tflow, t.func.value.func.value)) == f"{poly}.exterior"
+                               and isinstance(d_, ast.Call) and (callee(ctx, tcp, d_) or '').endswith('LineString') and len(d_.args) == 1 and ends_of(d_.args[0]) == 'ends'
+                               and isinstance(e_, ast.Call) and (callee(ctx, tcp, e_) or '').endswith('MultiPoint') and len(e_.args) == 1 and ends_of(e_.args[0]) == 'ends')
+            test_ok = inside and touches
+        ctx.check('R14.6', test_ok, "a diagonal (i, i+2) is an ear only if it lies in the polygon and touches the ring at its end points only", tcp, record or tcp.node,
                   construct='if diagonal.covered_by(polygon) and exterior.intersection(diagonal).equals(multipoint)')
-        ok = test is not None and mc.ordered('$tris[$k] = $coords[$i:$i + 3]', '$k += 1', f"{poly} = Polygon($coords[:$i + 1] + $coords[$i + 2:])", 'break', within=test)
-        ctx.check('R14.6', ok, "the ear (i, i+1, i+2) is recorded and vertex i+1 removed", tcp, test or tcp.node,
+        ok = record is not None and mc.ordered(f"$tris[$k] = {coords_name}[{ivar}:{ivar} + 3]", '$k += 1',
+                                                f"{poly} = Polygon({coords_name}[:{ivar} + 1] + {coords_name}[{ivar} + 2:])", 'break', within=inner)
+        ctx.check('R14.6', bool(ok), "the ear (i, i+1, i+2) is recorded and vertex i+1 removed", tcp, record or tcp.node,
                   construct='triangles[k] = coords[i:i+3]; k += 1; polygon = Polygon(coords[:i+1] + coords[i+2:]); break')
-        ok = (inner is not None and any(isinstance(s, ast.Raise) for s in inner.orelse)
+        ok = (inner is not None and any(isinstance(s_, ast.Raise) for s_ in inner.orelse)
               and mc.stmt(f"$tris[$k] = {poly}.exterior.coords[:-1]") is not None
               and (mc.stmt('assert $k + 1 == $count') is not None or mc.stmt('assert $count == $k + 1') is not None)
               and all(isinstance(r.value, ast.Name) and r.value.id == mc.name('tris') for r in tcp.returns()))
@@ -255,16 +324,15 @@ def run(ctx: Context) -> None:
         # and no other store into the result array
         tris = mc.name('tris')
         stores = [n for n in walk_no_nested(tcp.node) if isinstance(n, ast.Assign) and any(isinstance(t, ast.Subscript) and isinstance(t.value, ast.Name) and t.value.id == tris for t in n.targets)]
-        from .common import path_conditions
         rets = tcp.returns()
+
         def after_loop(node):
-            return wl is not None and node.lineno > wl.end_lineno and all(t is wl.test for t, _ in path_conditions(tcp, node))
+            return wl is not None and node.lineno > wl.end_lineno and not _eifs(tcp, node)
         ok = (wl is not None and len(rets) == 1 and after_loop(rets[0])
-              and len(stores) == 2 and test is not None and sum(1 for st_ in stores if any(x is st_ for x in ast.walk(test))) == 1
+              and len(stores) == 2 and record is not None and test_ok and sum(1 for st_ in stores if st_ is record) == 1
               and sum(1 for st_ in stores if after_loop(st_)) == 1)
         ctx.check('R14.6', ok, "every triangle returned was either accepted by the ear test or is the final remaining triangle: the only exit follows the clipping loop and nothing else writes the result",
                   tcp, rets[0] if rets else tcp.node, construct=f"{len(rets)} exit(s); stores into the result: {[norm_text(s_)[:50] for s_ in stores]}")
-
 
 
 # --------------------------------------------------------------------------- checker self-test
